@@ -1,13 +1,12 @@
 SPECIFICATION Spec
 CONSTANTS
-  Sess = {1}
+  Sess = {1, 2}
   Reps = {"v", "a"}
-  Clients = {"c1", "c2"}
-  NSeg = 2
-  Extra = 1
+  Clients = {"c1"}
+  NSeg = 0
+  Extra = 0
   First = 5
-  Scripts <- SafeScripts
-  ErrSets <- NoErr
-  StepGuard = FALSE
+  Scripts <- Scripts1x3
+  ErrSets <- OneErr1
+  StepGuard = TRUE
 INVARIANTS InitFirst Consecutive StepLower StepUpper DeleteStops Delivered StuckOnlyAfterStop
-PROPERTIES ApiReturns
